@@ -170,54 +170,189 @@ func callArg(p *pkgInfo, fn *ast.FuncDecl, callee string, idx int, nth int) ast.
 	return out
 }
 
+// ---- role-based anchors: local variables are found by what they are used for, not by their names ----
+
+// guardedBy returns the condition of the innermost `if X <cmp> Y { ... callee(...) ... }` in fn whose body calls callee.
+func guardedBy(fn *ast.FuncDecl, callee string) *ast.BinaryExpr {
+	var out *ast.BinaryExpr
+	ast.Inspect(fn.Body, func(n ast.Node) bool {
+		s, ok := n.(*ast.IfStmt)
+		if !ok {
+			return true
+		}
+		be, ok := s.Cond.(*ast.BinaryExpr)
+		if !ok || cmpOp(be.Op) == "" {
+			return true
+		}
+		if _, ok := be.X.(*ast.Ident); !ok {
+			return true
+		}
+		calls := false
+		ast.Inspect(s.Body, func(m ast.Node) bool {
+			if c, ok := m.(*ast.CallExpr); ok {
+				if sel, ok := c.Fun.(*ast.SelectorExpr); ok && sel.Sel.Name == callee {
+					calls = true
+				}
+			}
+			return !calls
+		})
+		if calls {
+			out = be // keep descending: the innermost one wins
+		}
+		return true
+	})
+	return out
+}
+
+// freeIdents lists the identifiers of e that are neither package constants nor type conversions.
+func freeIdents(p *pkgInfo, e ast.Expr) []string {
+	var out []string
+	ast.Inspect(e, func(n ast.Node) bool {
+		switch x := n.(type) {
+		case *ast.CallExpr:
+			// int32(x), time.Duration(x): only the arguments count
+			for _, a := range x.Args {
+				out = append(out, freeIdents(p, a)...)
+			}
+			return false
+		case *ast.SelectorExpr:
+			return false
+		case *ast.Ident:
+			if _, isConst := p.consts[x.Name]; !isConst && x.Name != "nil" && x.Name != "true" && x.Name != "false" {
+				out = append(out, x.Name)
+			}
+		}
+		return true
+	})
+	return out
+}
+
+// argIdent: the name of the identifier passed as idx-th argument to the first call of one of callees in fn ("" if none).
+func argIdent(fn *ast.FuncDecl, callees []string, idx int) string {
+	out := ""
+	ast.Inspect(fn.Body, func(n ast.Node) bool {
+		if c, ok := n.(*ast.CallExpr); ok && out == "" && len(c.Args) > idx {
+			for _, cal := range callees {
+				if callName(c) == cal {
+					if id, ok := c.Args[idx].(*ast.Ident); ok {
+						out = id.Name
+					}
+				}
+			}
+		}
+		return out == ""
+	})
+	return out
+}
+
+// definedByCall: name := <recv>.<method>() in fn -> the method's declaration (nil if name is not defined that way).
+func definedByCall(p *pkgInfo, fn *ast.FuncDecl, name string) *ast.FuncDecl {
+	var out *ast.FuncDecl
+	ast.Inspect(fn.Body, func(n ast.Node) bool {
+		s, ok := n.(*ast.AssignStmt)
+		if !ok || out != nil || len(s.Lhs) != 1 || len(s.Rhs) != 1 {
+			return true
+		}
+		if id, ok := s.Lhs[0].(*ast.Ident); !ok || id.Name != name {
+			return true
+		}
+		c, ok := s.Rhs[0].(*ast.CallExpr)
+		if !ok || len(c.Args) != 0 {
+			return true
+		}
+		sel, ok := c.Fun.(*ast.SelectorExpr)
+		if !ok {
+			return true
+		}
+		for full, fd := range p.funcs {
+			if strings.HasSuffix(full, "."+sel.Sel.Name) && fd.Recv != nil && fn.Recv != nil &&
+				recvName(fd.Recv.List[0].Type) == recvName(fn.Recv.List[0].Type) {
+				out = fd
+			}
+		}
+		return true
+	})
+	return out
+}
+
+// returnedIdent: the identifier of the (single-value) return statements of fn, if they all return the same one.
+func returnedIdent(fn *ast.FuncDecl) string {
+	name, ok := "", true
+	ast.Inspect(fn.Body, func(n ast.Node) bool {
+		if _, isLit := n.(*ast.FuncLit); isLit {
+			return false
+		}
+		if r, isRet := n.(*ast.ReturnStmt); isRet {
+			if len(r.Results) != 1 {
+				ok = false
+				return true
+			}
+			id, isId := r.Results[0].(*ast.Ident)
+			if !isId || (name != "" && name != id.Name) {
+				ok = false
+				return true
+			}
+			name = id.Name
+		}
+		return true
+	})
+	if !ok {
+		return ""
+	}
+	return name
+}
+
+// clampedRole: the clamped pattern of the variable that plays a role (name found through an anchor), falling back to the
+// historical name; when the variable is defined by a call of a helper method, the pattern is looked for in the helper.
+func clampedRole(p *pkgInfo, fn *ast.FuncDecl, anchor, legacy string, vars map[string]string, tok token.Token) string {
+	name := anchor
+	if name == "" {
+		name = legacy
+	}
+	if h := definedByCall(p, fn, name); h != nil {
+		if r := returnedIdent(h); r != "" {
+			return clamped(p, h, r, vars, tok)
+		}
+	}
+	return clamped(p, fn, name, vars, tok)
+}
+
 func genGuards(p *pkgInfo) string {
 	var b strings.Builder
 	b.WriteString("From LE Require Import Base.\nOpen Scope Z_scope.\n\n")
 	hb := p.fn("kvElection.heartbeatLoop")
 	hv := map[string]string{".cfg.HeartbeatInterval": "H", ".cfg.MaxConsecutiveFailures": "m"}
 	b.WriteString("(* " + p.pos(hb) + " *)\n")
-	b.WriteString("Definition gen_hb_update_timeout (H : Z) : Z := " + clamped(p, hb, "updateTimeout", hv, token.DEFINE) + ".\n")
-	b.WriteString("Definition gen_hb_max_failures : Z := " + intAssign(p, hb, "maxFailures") + ".\n")
-	b.WriteString("Definition gen_health_threshold (m : Z) : Z := " + clamped(p, hb, "maxHealthFailures", hv, token.DEFINE) + ".\n")
-	b.WriteString("Definition gen_health_check_timeout : Z := " + gexpr(p, callArg(p, hb, "context.WithTimeout", 1, 0), hv) + ".\n")
-	// the comparison that triggers health demotion: failureCount >= int32(maxHealthFailures)
-	trip := ""
-	ast.Inspect(hb.Body, func(n ast.Node) bool {
-		if s, ok := n.(*ast.IfStmt); ok && trip == "" {
-			if be, ok := s.Cond.(*ast.BinaryExpr); ok {
-				if id, ok := be.X.(*ast.Ident); ok && id.Name == "failureCount" && cmpOp(be.Op) != "" {
-					trip = "count " + cmpOp(be.Op) + " " + gexpr(p, be.Y, map[string]string{"maxHealthFailures": "thr"})
-				}
-			}
-		}
-		return true
-	})
-	if trip == "" {
-		panic(p.pos(hb) + ": health threshold comparison not found in heartbeatLoop")
-	}
-	b.WriteString("Definition gen_health_trips (count thr : Z) : bool := " + trip + ".\n")
-	// consecutiveFailures >= maxFailures
-	trip = ""
-	ast.Inspect(hb.Body, func(n ast.Node) bool {
-		if s, ok := n.(*ast.IfStmt); ok && trip == "" {
-			if be, ok := s.Cond.(*ast.BinaryExpr); ok {
-				if id, ok := be.X.(*ast.Ident); ok && id.Name == "consecutiveFailures" && be.Op != token.GTR {
-					if y, ok := be.Y.(*ast.Ident); ok && y.Name == "maxFailures" && cmpOp(be.Op) != "" {
-						trip = "count " + cmpOp(be.Op) + " thr"
-					}
-				}
-			}
-		}
-		return true
-	})
-	if trip == "" {
+	b.WriteString("Definition gen_hb_update_timeout (H : Z) : Z := " + clampedRole(p, hb, argIdent(hb, []string{"time.After", "time.NewTimer"}, 0), "updateTimeout", hv, token.DEFINE) + ".\n")
+	// the comparison that guards the call of handleHeartbeatFailure: <count> >= <threshold>, both local variables
+	hbc := guardedBy(hb, "handleHeartbeatFailure")
+	if hbc == nil {
 		panic(p.pos(hb) + ": refresh failure threshold comparison not found in heartbeatLoop")
 	}
+	hbThr, okThr := hbc.Y.(*ast.Ident)
+	if !okThr || hbc.Op == token.GTR {
+		panic(p.pos(hb) + ": refresh failure threshold comparison has an unexpected shape")
+	}
+	b.WriteString("Definition gen_hb_max_failures : Z := " + intAssign(p, hb, hbThr.Name) + ".\n")
+	// the comparison that guards the call of handleHealthCheckFailure: <count> >= int32(<threshold>)
+	hc := guardedBy(hb, "handleHealthCheckFailure")
+	if hc == nil {
+		panic(p.pos(hb) + ": health threshold comparison not found in heartbeatLoop")
+	}
+	hfree := freeIdents(p, hc.Y)
+	if len(hfree) != 1 {
+		panic(p.pos(hb) + ": health threshold comparison has an unexpected shape")
+	}
+	b.WriteString("Definition gen_health_threshold (m : Z) : Z := " + clamped(p, hb, hfree[0], hv, token.DEFINE) + ".\n")
+	b.WriteString("Definition gen_health_check_timeout : Z := " + gexpr(p, callArg(p, hb, "context.WithTimeout", 1, 0), hv) + ".\n")
+	trip := "count " + cmpOp(hc.Op) + " " + gexpr(p, hc.Y, map[string]string{hfree[0]: "thr"})
+	b.WriteString("Definition gen_health_trips (count thr : Z) : bool := " + trip + ".\n")
+	trip = "count " + cmpOp(hbc.Op) + " thr"
 	b.WriteString("Definition gen_hb_trips (count thr : Z) : bool := " + trip + ".\n\n")
 
 	dh := p.fn("disconnectHandler.handleDisconnect")
 	b.WriteString("(* " + p.pos(dh) + " *)\n")
-	b.WriteString("Definition gen_default_grace (H : Z) : Z := " + clamped(p, dh, "gracePeriod", map[string]string{".cfg.HeartbeatInterval": "H"}, token.ASSIGN) + ".\n\n")
+	b.WriteString("Definition gen_default_grace (H : Z) : Z := " + clampedRole(p, dh, argIdent(dh, []string{"time.AfterFunc"}, 0), "gracePeriod", map[string]string{".cfg.HeartbeatInterval": "H"}, token.ASSIGN) + ".\n\n")
 
 	wl := p.fn("kvElection.watchLoop")
 	b.WriteString("(* " + p.pos(wl) + " *)\n")
@@ -241,7 +376,7 @@ func genGuards(p *pkgInfo) string {
 	}
 	b.WriteString("Definition gen_val_max_failures : Z := " + intAssign(p, vl, "maxFailures") + ".\n")
 	// the time-out of one validation read, as a function of the heartbeat interval
-	b.WriteString("Definition gen_val_read_timeout (H : Z) : Z := " + clamped(p, vl, "validationTimeout", hv, token.DEFINE) + ".\n\n")
+	b.WriteString("Definition gen_val_read_timeout (H : Z) : Z := " + clampedRole(p, vl, argIdent(vl, []string{"context.WithTimeout"}, 1), "validationTimeout", hv, token.DEFINE) + ".\n\n")
 
 	vr := p.fn("kvElection.verifyLeadershipAfterReconnect")
 	b.WriteString("(* " + p.pos(vr) + " *)\n")
